@@ -205,6 +205,7 @@ class Ctx:
         axioms_seen = set()
         if ok and thms:
             audit = "\n".join(["import %s" % m for m in modules] + ["#print axioms %s" % n for (n, _, _) in thms]) + "\n"
+            os.makedirs(os.path.join(LEAN, "SfAudit"), exist_ok=True)
             apath = os.path.join(LEAN, "SfAudit", "Audit_%s.lean" % self.prop)
             with open(apath, "w") as f:
                 f.write(audit)
